@@ -375,6 +375,7 @@ func (hs *clientHandshakeStateGM) doFullHandshake() error {
 			return err
 		}
 
+		certVerify.signature = verifFaultBytes(c, "cv", certVerify.signature)
 		hs.finishedHash.Write(certVerify.marshal())
 		if _, err := c.writeRecord(recordTypeHandshake, certVerify.marshal()); err != nil {
 			return err
